@@ -315,10 +315,10 @@ def try_catch_guard(stmts, i, fn):
         return None
     c = ii[1]
     ci = inner(c)
-    # catch (...) has no exception declaration: its only child is the handler block
-    if len(ci) != 1 or ci[0].get("kind") != "CompoundStmt":
+    # catch (...) has no exception declaration: clang dumps a null child, then the handler block
+    if len(ci) != 2 or ci[0].get("kind") is not None or ci[1].get("kind") != "CompoundStmt":
         return None
-    h = inner(ci[0])
+    h = inner(ci[1])
     if len(h) != 2 or in_use_assign(h[0]) is not False:
         return None
     th = strip(h[1])
